@@ -104,6 +104,7 @@ func main() {
 			bad += nb
 		}
 		if bad > 0 {
+			cleanupScratch()
 			os.Exit(1)
 		}
 	case "stab":
